@@ -20,7 +20,7 @@ PROP = {
         "oracle that evaluates the property text from what the generator sent, recording observers) and the hook "
         "protocols/bgp/server/verif_hooks_bmp.go",
         "abstract BGP layer as in C27 (tabulated from the real code in the correspondence run); its per-NLRI behaviour "
-        "is C20's subject: generated UPDATEs carry one path identifier per family and each prefix once",
+        "is C20's subject: generated UPDATEs carry each prefix once (path identifiers may differ between the NLRIs of one UPDATE)",
         "modelled, not verified: routingtable.RoutingTable / route.Path identity (a path is identified by source address, "
         "prefix and path identifier), Loc-RIB clients with MaxPaths >= number of paths per prefix (the RIS server uses 100), "
         "single-threaded histories (serve processes one message at a time)",
